@@ -142,6 +142,17 @@ def repl_meta_rt(ctx, job):
         items = [('decodes', 'C17/repl-meta-rejected', back.variant == 0, wit)]
         if back.variant == 0: items.append(('round-trip-equal', 'C17/repl-meta-differs', veq(back.f[0].v, orig), lambda m: dict(wit(m), decoded=repr(concretize(back, m))[:400])))
         ctx.require_all(e, items, replay=rp)
+        if job.get('corrupt') and len(args) > 0:
+            # one token deleted at any position (the last position = a truncated message)
+            k = e.choose(len(args), 'deleted-token')
+            mut = [t for i, t in enumerate(args) if i != k]
+            arr2 = [bulk(RStr('UMCTL')), bulk(RStr('SETREPL'))] + [bulk(t) for t in mut]
+            resp2 = Enum('Resp', vi('Resp', 'Arr'), [Enum('Array', vi('Array', 'Arr'), [RVec([Cell(x) for x in arr2])])])
+            b2 = e.call('replicator::parse_repl_meta', [Ref(Cell(resp2))])
+            if b2.variant == 0:
+                ctx.require_all(e, [('deleted-token-not-accepted-as-other-value', 'C17/corrupted-repl-meta-accepted/deleted-' + token_kind(args[k]) + ('-last' if k == len(args) - 1 else ''), veq(b2.f[0].v, orig),
+                                     lambda m: {'tokens': [concretize(t, m) for t in mut], 'deleted_index': k, 'original': [concretize(t, m) for t in args]})],
+                                replay=lambda m: {'kind': 'rust-test', 'filter': 'verif_replay_repl', 'spec': {'tokens': [concretize(t, m) for t in mut], 'original': [concretize(t, m) for t in args], 'corrupt': True}})
         return 1
     res = ctx.explore('repl meta masters=%s replicas=%s' % (job['masters'], job['replicas']), run)
     ctx.ops += sum(p.value or 0 for p in res if p.kind == 'ok')
@@ -192,7 +203,7 @@ def run(ctx):
              {'kind': 'cm', 'local': [('127.0.0.1:6000', [N, M])], 'peer': [('127.0.0.2:7000', [('None', 2)])], 'corrupt': True, 'force': True},
              {'kind': 'cm', 'local': [('127.0.0.1:6000', [I]), ('127.0.0.1:6001', [('None', 3)])], 'peer': [('127.0.0.2:7000', [N]), ('127.0.0.3:7000', [M])], 'config': ('compression_strategy', 'allow_all'), 'corrupt': not quick},
              {'kind': 'cm', 'local': [], 'peer': [], 'config': ('migration_max_migration_time', '77') if False else ('compression_strategy', 'set_get_only')}]
-    jobs += [{'kind': 'rm', 'masters': [1], 'replicas': []}, {'kind': 'rm', 'masters': [2, 0], 'replicas': [1], 'force': True}, {'kind': 'rm', 'masters': [], 'replicas': [2, 3]}, {'kind': 'rm', 'masters': [], 'replicas': []}]
+    jobs += [{'kind': 'rm', 'masters': [1], 'replicas': [], 'corrupt': True}, {'kind': 'rm', 'masters': [2, 0], 'replicas': [1], 'force': True, 'corrupt': True}, {'kind': 'rm', 'masters': [], 'replicas': [2, 3], 'corrupt': not quick}, {'kind': 'rm', 'masters': [], 'replicas': []}]
     jobs += [{'kind': 'cd', 'tag': 'Migrating'}, {'kind': 'cd', 'tag': 'Importing'}, {'kind': 'cd', 'tag': 'Importing', 'multi': True}]
     ctx.bounds = {'ranges per list': '0..3 (symbolic ends)', 'nodes': '<= 2 local x <= 2 slot ranges, <= 2 peers', 'repl peers': '0..3', 'epochs': 'symbolic full u64', 'corruption': 'deletion of one token at every position'}
     ctx.assumptions += ['addresses and cluster names are concrete ASCII', 'HashMap iteration order is insertion order in to_args (the decoded map is compared as a map)']
